@@ -3,6 +3,7 @@
 
 mod app;
 mod c09;
+mod c09_shapes;
 mod c11;
 mod c12;
 mod c13;
